@@ -115,7 +115,7 @@ def pad_rows(rng, schema, k):
 
 
 LAYOUTS = ["fresh", "split_fresh", "split_view", "sliced", "take", "filter", "concat_slices",
-           "missing_empty", "missing_hidden", "pickle", "empty_chunks", "sliced_chunks"]
+           "missing_empty", "missing_hidden", "pickle", "empty_chunks", "sliced_chunks", "mixed_bases"]
 
 
 def make_layout(rng: random.Random, schema, rows, recipe: str) -> pa.ChunkedArray:
@@ -171,6 +171,19 @@ def make_layout(rng: random.Random, schema, rows, recipe: str) -> pa.ChunkedArra
             whole = build_chunk(rng, schema, pre + rows[a:b] + pad_rows(rng, schema, rng.randint(0, 1)))
             chunks.append(whole.slice(len(pre), b - a))
         return pa.chunked_array(chunks, type=st)
+    if recipe == "mixed_bases":
+        # every field allocated separately, each a window of its own buffer with its own base (what a row slice followed
+        # by a field assignment produces); equal lengths per row, different first offsets
+        if n == 0:
+            return pa.chunked_array([build_chunk(rng, schema, rows)], type=st)
+        arrays = []
+        for name, t in schema:
+            pre = [[gen_value(rng, t) for _ in range(rng.randint(1, 3))] for _ in range(rng.randint(0, 2))]
+            lists = [([] if r is None else r[name]) for r in rows]
+            whole = pa.array(pre + lists, type=pa.list_(TYPES[t]))
+            arrays.append(whole.slice(len(pre), n))
+        mask = pa.array([r is None for r in rows], type=pa.bool_())
+        return pa.chunked_array([pa.StructArray.from_arrays(arrays, names=[nm for nm, _ in schema], mask=mask)], type=st)
     if recipe == "missing_empty":
         return pa.chunked_array([build_chunk(rng, schema, rows, "empty")], type=st)
     if recipe == "missing_hidden":
